@@ -343,7 +343,13 @@ func (fm *FileModel) CompareRejects(w *World, m *skel.Method, field string, exp 
 			if a.atom != nil {
 				name = a.atom.Name
 			}
-			issues = append(issues, Issue{Rule: "A-NOEXTRA", Construct: fmt.Sprintf("reject branch without a stated constraint (%s %s against %s, loop depth %d)", a.r.Kind, a.r.Op, name, len(a.r.Loops)),
+			where := ""
+			if field == "" && len(a.r.Loops) > 0 {
+				// (the unmarshaler of a DECLARED array type measuring its inner arrays: the listed nested-array finding is about
+				// struct fields, whose text the goldens pin; a declared type has no inner checks on the pinned tree)
+				where = " in the unmarshaler of a declared array type"
+			}
+			issues = append(issues, Issue{Rule: "A-NOEXTRA", Construct: fmt.Sprintf("reject branch without a stated constraint (%s %s against %s, loop depth %d)%s", a.r.Kind, a.r.Op, name, len(a.r.Loops), where),
 				Msg: fmt.Sprintf("%s: %s.%s rejects on `%s` (against %s) although the schema states no such constraint there: valid documents are refused", what, m.Recv, m.Name, a.r.Cond, name)})
 		}
 	}
